@@ -31,7 +31,7 @@ def fmt_state(d):
 
 def apply_items(spec, items):
     for it in items.split(","):
-        p = it.split(".")
+        p = it.split("*")[0].split(".")     # `item*N`: N copies
         if p[0] == "p":
             spec[int(p[1])] = p[2]
         elif p[0] == "d":
@@ -63,6 +63,14 @@ def relevant_hits(hits, flags, known, classes, last):
         if i == last or not covered:
             out.append((i, why, cls))
     return out
+
+
+def impl_reported(ctx, spec_violated):
+    """Will `K.report_mismatch` name a Spec violation of the implementation (on the case prefix
+    that ends at a first mismatching line)?  If not, oracle hits on mismatching lines further
+    down a case have no other reporter and must not be dropped."""
+    reps = [getattr(ctx, "pending_mismatch", None)] + list(getattr(ctx, "pending_mismatch_more", []))
+    return any(r is not None and spec_violated(r) for r in reps)
 
 
 def first_relevant(rep, scan, known, classes):
